@@ -161,6 +161,25 @@ func runC06(r *Run, seed int64, c c06Case, record bool) *lcHist {
 			p.w.Advance(11 * time.Minute)
 			h.settle()
 		}
+		// a claim broadcast that failed a few times (fewer than the retry budget of 20) is retried until it
+		// succeeds, without the help of a restart
+		if c.claimFail > 0 && c.claimFail <= 10 && c.crashAt == 0 && c.resolve != "never" && p.w.Blocked() == 0 {
+			paid := false
+			for _, inv := range p.w.LN.InvoicesOfSwap(p.id, 1) {
+				_, s := p.w.LN.PendingOrSettled(h.victim.ID, inv.Hash)
+				paid = paid || s
+			}
+			got := false
+			for _, s := range h.spendsOK {
+				if s.Op == "preimage" {
+					got = true
+				}
+			}
+			if paid && !got {
+				r.Violate("claims-after-payment", fmt.Sprintf("C06|claim-not-retried-after-failed-broadcast|%s|pers=%s", h.victimRole(), persName(c.pers)),
+					fmt.Sprintf("claim payment settled, the claim broadcast failed %d times and then worked again, but the taker made no further attempt (state %s) before any restart; case %+v seed %d", c.claimFail, p.state(h.victim), c, seed), traceOf(p.w))
+			}
+		}
 		// a restart and some more blocks: the taker must keep trying to claim
 		h.victim.Fault = nil
 		h.victim.Restart()
